@@ -141,9 +141,41 @@ Proof.
   apply (multi_stream_select_good info c (win c) Ht (win_ok_win c) _ _ Hq).
 Qed.
 
+(* ------------------------------------------------------------------ label names *)
+Definition labels_win (ty start_ms end_ms : Z) : window :=
+  {| w_from := start_ms * 1000000; w_to := end_ms * 1000000; w_lo_min := start_ms * 1000000; w_hi_max := end_ms * 1000000; w_type := ty |}.
+
+Theorem labels_query_scans_bounded info table ty start_ms end_ms :
+  info table = index_typed -> ty <> 0%Z -> (0 <= start_ms)%Z -> (0 <= end_ms)%Z ->
+  Forall (scan_bounded info (labels_win ty start_ms end_ms)) (scans (labels_query table ty start_ms end_ms)).
+Proof.
+  intros Hi Hty Hs He. rewrite scans_eq. unfold labels_query, and_where, SimpleCol, exprs_scans, wscans, uscans. fields_all.
+  cbn [flat_map app oesc escans]. unfold And, Ge, Le. cbn [escans flat_map app]. constructor; [|constructor].
+  apply scan_bounded_b_iff. unfold scan_bounded_b, scan_failures. cbn [sc_table]. rewrite Hi. cbn [ti_class ti_typed index_typed].
+  assert (Hb : bounds {| sc_table := table; sc_alias := "samples"; sc_tsn := ts_names [Id "key"%string];
+                         sc_conj := conjs (LOp OAnd [In (Id "type"%string) [IntV ty; IntV 0]; LOp OGe [Id "date"%string; DateV (from_day (start_ms / 1000 * 1000000000))];
+                                                     LOp OLe [Id "date"%string; DateV (end_ms / 1000 / 86400)]]) ++ [] |}
+               = [Ty [ty; 0%Z]; DLo (from_day (start_ms / 1000 * 1000000000)); DHi (end_ms / 1000 / 86400)]) by reflexivity.
+  cbn [oconjs app] in Hb |- *. rewrite app_nil_r in Hb. rewrite Hb.
+  unfold date_failures, ts_lower_failures, ts_upper_failures, type_failures.
+  cbn [d_los d_his ts_los ts_his tys flat_map app zmax_list zmin_list fold_left andb labels_win w_type w_from w_to].
+  apply Z.eqb_neq in Hty. rewrite Hty. apply Z.eqb_neq in Hty. rewrite (types_ok ty Hty).
+  replace (from_day (start_ms / 1000 * 1000000000) >? day_of_ns (start_ms * 1000000))%Z with false.
+  - replace (end_ms / 1000 / 86400 <? day_of_ns (end_ms * 1000000 - 1))%Z with false; [reflexivity|].
+    symmetry. apply Z.ltb_ge. rewrite Z.div_div by lia. transitivity (day_of_ns (end_ms * 1000000)).
+    + unfold day_of_ns, ns_per_day. apply Z.div_le_mono; lia.
+    + unfold day_of_ns, ns_per_day. replace (86400 * 1000000000)%Z with (1000 * 86400 * 1000000)%Z by lia.
+      rewrite Z.div_mul_cancel_r by lia. lia.
+  - symmetry. rewrite Z.gtb_ltb. apply Z.ltb_ge.
+    transitivity (day_of_ns (start_ms / 1000 * 1000000000)); [apply from_day_close|].
+    unfold day_of_ns, ns_per_day. apply Z.div_le_mono; [lia|].
+    pose proof (Z.mul_div_le start_ms 1000 ltac:(lia)). lia.
+Qed.
+
 Lemma label_examples :
   (match multi_stream_select cluster_ctx [[m_ab]; [m_ab]] with
    | Some q => Nat.leb 3 (List.length (scans (series_planner cluster_ctx q))) && Nat.leb 3 (List.length (scans (values_planner std_ctx "job"%string (Some q))))
    | None => false end = true)
-  /\ List.length (scans (values_planner std_ctx "job"%string None)) = 1%nat.
-Proof. split; vm_compute; reflexivity. Qed.
+  /\ List.length (scans (values_planner std_ctx "job"%string None)) = 1%nat
+  /\ List.length (scans (labels_query "time_series_gin_dist"%string 2 1704888000123 1704891600456)) = 1%nat.
+Proof. repeat split; vm_compute; reflexivity. Qed.
